@@ -358,6 +358,28 @@ impl World {
         o.last_poll = Some((w, code == 10));
         o.woken_since_poll = false;
         o.ready_processed = false;
+        if code == 10 {
+            // C03, the consequence the property names: "an executor that re-polls only when woken
+            // always makes progress". A future that returns Pending must have left something behind
+            // that will wake it: its submission queued or its request in flight (a completion will
+            // come), a completion already posted and not yet processed, or — the queue being full —
+            // its waker on the blocked list (woken by a later Ring::poll).
+            let kfd = o.kfd;
+            let ud = o.ud;
+            let pending_ready = o.pending_ready;
+            let (queued, inflight, full) = simk::with(|s| {
+                let pend = s.pending_sqes();
+                (
+                    pend.iter().any(|q| q.opcode != abi::OP_ASYNC_CANCEL && q.fd == kfd),
+                    ud.is_some_and(|ud| s.find_req_by_user_data(ud).is_some()),
+                    pend.len() as u32 >= s.sq_entries,
+                )
+            });
+            if !(queued || inflight || pending_ready || full) {
+                self.fail(format!("operation {i} returned Pending with waker {w}, but nothing is left that could wake it: no submission queued, no request in flight, no completion waiting, and the submission queue has room (so it is not parked)"));
+            }
+        }
+        let o = &mut self.ops[i];
         if let Some(b) = buf {
             // The kernel wrote `res` bytes of the pattern; the caller must see exactly those.
             if b.iter().enumerate().any(|(k, x)| *x != (k as u8) ^ 0x5A) {
